@@ -3135,3 +3135,68 @@ func ruleStrconvErr(c *Ctx, rule string) {
 		c.Und(rule, "strconv parsing calls of the json package", "-", "none found")
 	}
 }
+
+// ---- C04/varint-only ----------------------------------------------------------------------------------------------------------
+// The integer codecs write their value as a varint and read it back with the
+// varint reader.  In the MarshalBinary of an integer-kinded codec type no byte
+// of the payload is produced by truncating the value itself (`byte(o)`): the
+// payload comes from binary.PutUvarint / PutVarint (or the package's varint
+// helper).  A hand-written "single byte" fast path is a varint only below 128:
+// for 128..255 the byte has the continuation bit set and the reader rejects the
+// constant the writer just produced.
+func ruleVarintOnly(c *Ctx, rule string) {
+	l := c.L
+	n := 0
+	for _, fn := range l.RepoFuncs(func(pp string) bool { return pp == encPath }) {
+		if fn.Name() != "MarshalBinary" || fn.Signature.Recv() == nil || len(fn.Params) == 0 {
+			continue
+		}
+		recv := fn.Params[0]
+		b, ok := recv.Type().Underlying().(*types.Basic)
+		if !ok || b.Info()&types.IsInteger == 0 {
+			continue
+		}
+		n++
+		var bad []string
+		eachInstr(fn, func(ins ssa.Instruction) {
+			st, ok := ins.(*ssa.Store)
+			if !ok {
+				return
+			}
+			cv, ok := st.Val.(*ssa.Convert)
+			if !ok {
+				return
+			}
+			if tb, ok := cv.Type().Underlying().(*types.Basic); !ok || tb.Kind() != types.Uint8 {
+				return
+			}
+			// the value itself, through conversions and arithmetic (not through a call:
+			// byte(n) of the varint writer's count is the length prefix)
+			var isVal func(v ssa.Value, d int) bool
+			isVal = func(v ssa.Value, d int) bool {
+				if d > 4 {
+					return false
+				}
+				switch x := v.(type) {
+				case *ssa.Parameter:
+					return x == recv
+				case *ssa.Convert:
+					return isVal(x.X, d+1)
+				case *ssa.ChangeType:
+					return isVal(x.X, d+1)
+				case *ssa.BinOp:
+					return isVal(x.X, d+1) || isVal(x.Y, d+1)
+				}
+				return false
+			}
+			if isVal(cv.X, 0) {
+				bad = append(bad, l.Pos(st.Pos()))
+			}
+		})
+		c.Check(rule, fnName(fn)+" | payload bytes", l.Pos(fn.Pos()), len(bad) == 0, "no byte is produced by truncating the value: the payload is a varint",
+			"the codec stores byte(value) into its output ("+strings.Join(bad, ", ")+") instead of a varint: for values whose low byte has the top bit set the reader sees a continuation bit and rejects (or mis-reads) the constant - a script with the constant 200u encodes and then fails to decode")
+	}
+	if n == 0 {
+		c.Und(rule, "integer codecs", "-", "no MarshalBinary of an integer-kinded codec type found")
+	}
+}
